@@ -96,6 +96,9 @@ var coreDirs = map[string]bool{"skip": true, "include": true, "deprecated": true
 
 // IntroView runs the introspection request on the root and projects the response onto the
 // view of Introspect!IntroView. errs is non-nil if the response carries errors.
+// UndeclaredLocs counts the directive locations reported that __DirectiveLocation does not declare (see IntroView).
+var UndeclaredLocs int
+
 // PseudoTypes counts the entries of `types` that are no types (see IntroView).
 var PseudoTypes int
 
@@ -141,6 +144,13 @@ func IntroView(root *ggql.Root, includeDeprecated bool) (view map[string]interfa
 			"ifaces": names2(l(tm["interfaces"])), "possible": names2(l(tm["possibleTypes"])), "values": values,
 			"infields": argsView(l(tm["inputFields"]))}
 	}
+	// what __DirectiveLocation declares, as introspection itself reports it
+	declaredLocs := map[string]bool{}
+	if dl := root.ResolveString(`{ __type(name: "__DirectiveLocation") { enumValues { name } } }`, "", nil); dl["errors"] == nil {
+		for _, v := range l(m(m(dl["data"])["__type"])["enumValues"]) {
+			declaredLocs[str(m(v)["name"])] = true
+		}
+	}
 	dirs := map[string]interface{}{}
 	for _, d := range l(sc["directives"]) {
 		dm := m(d)
@@ -151,6 +161,10 @@ func IntroView(root *ggql.Root, includeDeprecated bool) (view map[string]interfa
 		locs := []interface{}{}
 		for _, x := range l(dm["locations"]) {
 			locs = append(locs, fmt.Sprint(x))
+			if len(declaredLocs) > 0 && !declaredLocs[fmt.Sprint(x)] {
+				// known finding LocationNotInIntrospectionEnum: a location is the name of a value of __DirectiveLocation
+				UndeclaredLocs++
+			}
 		}
 		sort.Slice(locs, func(i, j int) bool { return locs[i].(string) < locs[j].(string) })
 		dirs[name] = map[string]interface{}{"desc": str(dm["description"]), "locs": locs, "args": argsView(l(dm["args"]))}
